@@ -31,7 +31,7 @@ var Prop = &engine.Prop{
 		"bitmap1024.VerifSetSparseMagic (build tag verif) is the only writer of the threshold and cases of one child run sequentially",
 		"operands of And/Or/... are fresh copies for every call: whether an operation leaves its receiver untouched is not judged",
 	},
-	ShardsQuick: 4, ShardsThorough: 48,
+	ShardsQuick: 4, ShardsThorough: 16,
 	Kinds: []engine.Kind{
 		{Name: "iter64", Quick: 450, Thorough: 67500, Fn: iter64Case},
 		{Name: "iter1024", Quick: 400, Thorough: 60000, Fn: iter1024Case},
